@@ -48,8 +48,9 @@ inductive ReachVia (E : List Edge) (P : Edge → Prop) : Node → Node → Prop 
 def orderedB (fuel : Nat) (es : List Edge) : List (Node × Instr) → Bool
   | [] => true
   | p :: rest =>
+    let reached := reachFrom es isAwait p.1
     (rest.all fun q => (memAccesses p.2).all fun a => (memAccesses q.2).all fun c =>
-      !(a.1 = c.1 && (a.2.isWrite || c.2.isWrite)) || reachB es isAwait fuel p.1 q.1)
+      !(a.1 = c.1 && (a.2.isWrite || c.2.isWrite)) || reached.contains q.1)
     && orderedB fuel es rest
 
 def justifiedB (b : Block) (es : List Edge) : Bool :=
@@ -89,8 +90,9 @@ structure HistSpec (init : Queue) (h : List Access) (dss : List (List Dep)) : Pr
 def histOrderedB (fuel : Nat) (es : List Edge) : List Access → Bool
   | [] => true
   | a :: rest =>
+    let reached := reachFrom es anyLabel a.node
     (rest.all fun c => !(a.res = c.res && (a.kind.isWrite || c.kind.isWrite)) ||
-      reachB es anyLabel fuel a.node c.node) && histOrderedB fuel es rest
+      reached.contains c.node) && histOrderedB fuel es rest
 
 def depsJustifiedB (init : Queue) : List Access → List Access → List (List Dep) → Bool
   | pre, a :: h, ds :: dss =>
